@@ -68,7 +68,7 @@ def replay(prop, path):
         ops = [tuple(o) for o in r["ops"]]
         key = tuple(r["key"]) if r.get("key") else None
         obs, pulls, closes = m.run_impl(items, key, "sync", ops)
-        adv = builtins.all(o[0] in ("adv", "grp") for o in ops)
+        adv = builtins.all(o[0] in ("adv", "grp", "drop") for o in ops)
         std = m.run_std(items, key, ops) if adv else None
         bad = builtins.any(o[0] == "error" for o in obs) or (std is not None and not (len(std) == len(obs) and builtins.all(m.same_obs(x, y) for x, y in builtins.zip(obs, std))))
         return _say(prop, path, bad, "asyncstdlib %r itertools %r" % (obs, std))
